@@ -89,7 +89,7 @@ type c18Case struct {
 	Desc     string   `json:"description"`
 }
 
-var c18Scenarios = []string{"next-to-a-third-party-import", "aliased-next-to-a-third-party-import", "after-two-third-party-packages-of-the-same-name", "plain", "prefix", "alias=last-element", "alias=real-name", "importname", "anon-then-ref", "dict-value", "file-path-ends-in-package-path", "file-path-is-last-element"}
+var c18Scenarios = []string{"next-to-a-third-party-import", "aliased-next-to-a-third-party-import", "after-two-third-party-packages-of-the-same-name", "plain", "prefix", "alias=last-element", "alias=real-name", "importname", "anon-then-ref", "dict-value", "file-path-ends-in-package-path", "file-path-is-last-element", "non-ascii-prefix", "non-ascii-alias", "render-then-anon-then-render", "anon-render-ref"}
 
 func lastElem(p string) string {
 	p = strings.TrimSuffix(p, "/")
@@ -135,6 +135,15 @@ func c18World(names map[string]string, paths []string, scenario string) *imp.Wor
 		w.Ref("x1/"+n, 0)
 	case "prefix":
 		w.Prefix("pkg")
+	case "non-ascii-prefix":
+		w.Prefix("π")
+	case "non-ascii-alias":
+		for _, p := range paths {
+			w.Alias(p, "é"+names[p])
+		}
+	case "anon-render-ref":
+		w.AnonImport(paths[len(paths)-1])
+		w.MidRender()
 	case "alias=last-element":
 		for _, p := range paths {
 			if token.IsIdentifier(lastElem(p)) { // e.g. .../v1.0.0 is no identifier: not a legal alias to ask for
@@ -157,6 +166,11 @@ func c18World(names map[string]string, paths []string, scenario string) *imp.Wor
 	}
 	for _, p := range paths {
 		w.Ref(p, wrapper)
+	}
+	if scenario == "render-then-anon-then-render" {
+		// the names given by the first render survive an Anon of the path registered last
+		w.MidRender()
+		w.AnonImport(paths[len(paths)-1])
 	}
 	return w
 }
@@ -243,8 +257,8 @@ func runC18(r *ev.Recorder) {
 		}
 	}
 	r.Rule = "every package directory below <GOROOT>/src of the installed toolchain (outside cmd, vendor, testdata; package name = the name its non-test files declare, parsed with go/parser), " +
-		"(a) alone under 12 scenarios (next to a third-party import, aliased next to one, after two third-party packages of the same name, plain, PackagePrefix, ImportAlias = last path element, ImportAlias = real name, truthful ImportName, Anon then reference, Anon then reference inside a Dict value, in a File whose own package path ends in the package path, in a File whose own path is the last element); " +
-		"(b) every ordered pair of packages, plain, with prefix, and with the second aliased to the name of the first (pairs that share a declared or guessed name - thorough: all pairs - also inside a Dict after Anon, with aliases, Anon then reference, and next to a third-party import); every ordered triple of packages sharing a declared name; " +
+		"(a) alone under 16 scenarios (a non-ASCII PackagePrefix, a non-ASCII alias, render / Anon of the path / render again, Anon / render / reference; next to a third-party import, aliased next to one, after two third-party packages of the same name, plain, PackagePrefix, ImportAlias = last path element, ImportAlias = real name, truthful ImportName, Anon then reference, Anon then reference inside a Dict value, in a File whose own package path ends in the package path, in a File whose own path is the last element); " +
+		"(b) every ordered pair of packages, plain, with prefix (ASCII and non-ASCII), and with the second aliased to the name of the first (pairs that share a declared or guessed name - thorough: all pairs - also inside a Dict after Anon, with aliases, Anon then reference, and next to a third-party import); every ordered triple of packages sharing a declared name; " +
 		"oracle on the parsed output: the spec of the path has no alias and the qualifier is the declared name, or has an alias equal to the qualifier; names unique; go/types resolves every reference against a fabricated importer declaring the parsed names. " +
 		"(c) the repository's gennames tool is built and run (-standard -novendor) and every entry of the table it writes must equal the parsed name of that directory. " +
 		"distinct_nontrivial = distinct (path set, scenario) cases in which some package's declared name differs from its last path element or two packages compete for a name"
@@ -300,6 +314,7 @@ func runC18(r *ev.Recorder) {
 			one(ps, "plain")
 			one(ps, "prefix")
 			one(ps, "second-aliased-to-name-of-first")
+			one(ps, "non-ascii-prefix")
 			if names[ps[0]] == names[ps[1]] {
 				one(ps, "next-to-a-third-party-import")
 				one(ps, "aliased-next-to-a-third-party-import")
